@@ -218,6 +218,16 @@ class Discharger:
         """idx < dim"""
         idx = cn.canon(idx)
         dim = cn.norm_extent(cn.canon(dim))
+        # an index FOUND in a range — `(0..n).find(p)` / `.position(p)` / `.rfind(p)` unwrapped — lies below the range's end
+        j = idx
+        if j[0] == "payload" and j[2] == "ok" and j[1][0] == "call" and j[1][1].rsplit("::", 1)[-1] in ("find", "rfind", "position", "min", "max", "last", "next") and j[1][3]:
+            src = j[1][3][0]
+            while src[0] in ("mutated", "drv"):
+                src = src[1]
+            if src[0] == "agg" and src[1].endswith("ops::Range") and j[1][1].rsplit("::", 1)[-1] != "position":
+                end = dict(src[3]).get("end")
+                if end is not None and provably_le(cn.norm_extent(cn.canon(end)), dim, facts):
+                    return True
         li = ilin(idx)
         if li is None:
             return False
